@@ -4,4 +4,5 @@ set -eu
 cd "$(dirname "$0")/mc"
 export CARGO_NET_OFFLINE=true RUSTUP_TOOLCHAIN=${VX_TOOLCHAIN:-1.88.0}
 cargo build --offline --release
+cargo build --offline --profile fast
 echo "setup ok"
